@@ -281,6 +281,52 @@ def scan_sound_flows(repo):
 
 
 
+SZX_MIN = {"CRTR": 37, "Z80R": 37, "SPCR": 8, "AY\\0\\0": 18, "KEYB": 5, "AMXM": 1, "RAMP": 3}
+SZX_HANDLER = {"CRTR": "process_crtr_block", "Z80R": "process_z80r_block", "SPCR": "process_spcr_block",
+               "AY\\0\\0": "process_ay_block", "KEYB": "process_keyb_block", "AMXM": "process_amxm_block",
+               "RAMP": "process_ramp_block"}
+
+
+def scan_szx_min_sizes(repo):
+    """C15 call-site obligation of the szx unit: szx::load hands a block to a handler only after
+    checking the minimal size the handler's contract requires (the chunk loop itself is outside the
+    Verus subset, so this precondition is discharged on the source text)"""
+    import sys
+    sys_path = os.path.join(VERIF, "vx")
+    if sys_path not in sys.path:
+        sys.path.insert(0, sys_path)
+    from rustlex import match_close
+    ob = "scan::szx::load checks min_size >= handler precondition before dispatching each block id"
+    path = os.path.join(repo, "rustzx-core/src/emulator/snapshot/szx.rs")
+    if not os.path.isfile(path):
+        return dict(status="undecided", obligation=ob, detail="szx.rs missing")
+    src = open(path).read()
+    m = re.search(r"pub fn load<", src)
+    if not m:
+        return dict(status="undecided", obligation=ob, detail="lost anchor: szx::load")
+    body = src[m.start():]
+    t = re.search(r"let\s+min_size\s*=\s*match\s*&id\s*\{(.*?)\n\s*\};", body, re.S)
+    g = re.search(r"if\s+block_data\.len\(\)\s*<\s*min_size\s*\{\s*return\s+Err", body)
+    if not t or not g:
+        return dict(status="undecided", obligation=ob, detail="min_size table / guard not found in this shape (thorough tier: K-core::loaders-szx decides)")
+    table = dict((k, int(v)) for k, v in re.findall(r'b"([^"]+)"\s*=>\s*(\d+)', t.group(1)))
+    bad = []
+    disp = body[g.end():]
+    for bid, need in SZX_MIN.items():
+        # every dispatch arm that calls the handler must be guarded by a table entry >= need
+        if re.search(r"\b%s\s*\(" % SZX_HANDLER[bid], disp):
+            if table.get(bid, 0) < need:
+                bad.append("%s: min_size %s < %d required by %s" % (bid.replace("\\0", "\\\\0"), table.get(bid), need, SZX_HANDLER[bid]))
+    # handlers must not be called from anywhere before the guard
+    for h in set(SZX_HANDLER.values()):
+        if re.search(r"\b%s\s*\(" % h, body[:g.start()]):
+            bad.append("%s called before the size guard" % h)
+    if bad:
+        return dict(status="fail", obligation=ob, detail="; ".join(bad))
+    return dict(status="ok", obligation=ob, detail="")
+
+
+
 def scan_paging_writers(repo):
     allowed = {"rustzx-core/src/zx/controller.rs::write_7ffd", "rustzx-core/src/zx/controller.rs::restore_7ffd"}
     found = grep_writers(repo, "paging_enabled", allowed) | grep_writers(repo, "current_port_7ffd", allowed)
@@ -443,19 +489,20 @@ K_SNA = dict(name="K-core::sna", package="rustzx-core", features="full",
 PROPS = {
     "C14": dict(
         level="proof",
-        claim="Kani/CBMC on the real loaders: for every 27-byte SNA header, every prior CPU state and both machines the registers, IFF, interrupt mode, border are exactly the format's decode (Err for mode 3), independent of halted/EI-shadow/prefix state of the receiver, and a snapshot of the other model is rejected; SNA RAM banks and the 128K latch incl. lock through the round-trip harnesses of C13; SZX Z80R decode incl. halted / EI-pending flags (bounded one-block files) and model mismatch rejection; Verus: restore_7ffd sets the latch regardless of a previous lock, ZXAyChip::set_regs restores the register file and programs the generator, every behind-the-bus RAM writer refreshes the display shadow (scan) and refresh covers every display bank (Kani); the real scr::load (Verus, unit scr): a 6912-byte file from a non-failing asset loads, its bytes become the start of the RAM bank mapped at 0x4000 with the rest of that bank and every other bank untouched, the display shadow is rebuilt afterwards, any other size is rejected with the machine unchanged.",
-        note="SZX part BOUNDED (one-block files, enumerated sizes; thorough tier only: ~10 min per harness; zlib pages rely on the unverified miniz_oxide). 'Two encodings of the same state behave identically' follows by transitivity through the decode obligations, not mechanised. SCR on a 128K whose shadow screen (bank 7) is displayed goes to bank 5 as implemented (the statement does not say which). SZX halted-PC convention left as implemented (format ambiguity). Defects repaired: model mismatch (SNA, SZX), locked receiver, AY generator not restored, receiver CPU state.",
-        verus=["ctl", "scr"],
+        claim="Kani/CBMC on the real loaders: for every 27-byte SNA header, every prior CPU state and both machines the registers, IFF, interrupt mode, border are exactly the format's decode (Err for mode 3), independent of halted/EI-shadow/prefix state of the receiver, and a snapshot of the other model is rejected; SNA RAM banks and the 128K latch incl. lock through the round-trip harnesses of C13; SZX Z80R decode incl. halted / EI-pending flags (bounded one-block files) and model mismatch rejection; Verus: restore_7ffd sets the latch regardless of a previous lock, ZXAyChip::set_regs restores the register file and programs the generator, every behind-the-bus RAM writer refreshes the display shadow (scan) and refresh covers every display bank (Kani); the real scr::load (Verus, unit scr): a 6912-byte file from a non-failing asset loads, its bytes become the start of the RAM bank mapped at 0x4000 with the rest of that bank and every other bank untouched, the display shadow is rebuilt afterwards, any other size is rejected with the machine unchanged; the real SZX block handlers (Verus, unit szx) for EVERY block content of at least the size szx::load checks: Z80R decodes every register, IFF1/IFF2, IM (3 rejected with the machine untouched), halted (PC behind the HALT), EI-pending, Q, MEMPTR and the frame clock modulo the frame length; SPCR restores the latch (0 on 48K ids), replays port 0xFE and lets the border field win; AY00 selects and restores the register file (and the AY presence on 48K ids); KEYB/AMXM set Kempston joystick/mouse presence; RAMP (stored) puts exactly the 16384 bytes after the prefix into the addressed bank, rejects missing pages and short payloads and touches no other bank.",
+        note="SZX chunk loop BOUNDED (one-block files, enumerated sizes; thorough tier only: ~10 min per harness; zlib pages rely on the unverified miniz_oxide). 'Two encodings of the same state behave identically' follows by transitivity through the decode obligations, not mechanised. SCR on a 128K whose shadow screen (bank 7) is displayed goes to bank 5 as implemented (the statement does not say which). SZX halted-PC convention left as implemented (format ambiguity). Defects repaired: model mismatch (SNA, SZX), locked receiver, AY generator not restored, receiver CPU state.",
+        verus=["ctl", "scr", "szx"],
         kani=[K_LOADERS, K_LOADERS_SZX, K_REFRESH],
-        scans=[scan_ram_writers_refresh],
+        scans=[scan_ram_writers_refresh, scan_szx_min_sizes],
         explanation="loader decode obligations against the format descriptions",
         technique="contract-based deductive verification: Kani/CBMC harnesses on the real loaders + Verus contracts",
     ),
     "C15": dict(
         level="proof",
-        claim="Totality obligations: Verus proves termination and absence of panics/overflow/out-of-range access (its default obligations) for the host-trait loops read_exact/write_all under ANY host read/write behaviour, the TAP block reader and pulse state machine for all images, frame_registers, the VTX transposition, BlocksCount, ZXColor::from_bits / set_regs preconditions; Kani proves that sna::load returns Ok/Err for every header, reported size class, model combination and an injected asset failure at any call, and (BOUNDED) the same for one-block SZX files and VTX headers with enumerated strings blocks; every K-z80 group additionally proves Z80::emulate free of panics for every CPU state and bus answer (thorough tier).",
+        claim="Totality obligations: Verus proves termination and absence of panics/overflow/out-of-range access (its default obligations) for the host-trait loops read_exact/write_all under ANY host read/write behaviour, the TAP block reader and pulse state machine for all images, frame_registers, the VTX transposition, BlocksCount, ZXColor::from_bits / set_regs preconditions; the SZX block handlers and scr::load never index out of range for any block content of the checked minimal size (scan: szx::load checks those sizes before dispatch); Kani proves that sna::load returns Ok/Err for every header, reported size class, model combination and an injected asset failure at any call, and (BOUNDED) the same for one-block SZX files and VTX headers with enumerated strings blocks; every K-z80 group additionally proves Z80::emulate free of panics for every CPU state and bus answer (thorough tier).",
         note="BOUNDED parts are reported under bounded_stand_ins. Third-party decoders (miniz_oxide, flate2/GzipAsset, delharc) are out of reach and assumed. Memory proportionality is the explicit size checks now in the loaders (SZX block size <= rest of file, VTX frame size cap), checked by the harness assertions. Twelve loader defects repaired (see known_findings.json fixed entries).",
-        verus=["hostio", "tape", "vtx", "screen", "scr"],
+        verus=["hostio", "tape", "vtx", "screen", "scr", "szx"],
+        scans=[scan_szx_min_sizes],
         kani=[K_LOADERS, K_LOADERS_SZX, K_VTXLOAD, k_z80("K-z80::total", ["plain_all", "ed_all", "cbx_all"], tier="thorough")],
         explanation="panic-freedom and termination as verifier default obligations on the load paths",
         technique="contract-based deductive verification: Verus default obligations (no panic, no overflow, termination) + Kani/CBMC harnesses",
